@@ -9,6 +9,8 @@ target must equal the interpreter's summary of the same opcode on its in-bounds 
 representative register pairs; thorough: all 121 pairs.  Known finding F01 (same root cause as
 C01): the JIT sign-extends the immediate of the six unsigned 64-bit jumps, the interpreter
 zero-extends it."""
+import re
+
 import imodel
 import isa
 import jitmodel
@@ -110,9 +112,47 @@ def eq_substitution(conds):
                 x, k = inner, kk
             if x[0] == "v":
                 sub[x] = k
+        elif c[0] == "cmp" and c[1] == "eq":
+            # `x == ext(trunc(x))` (the value fits the narrower type, e.g. from i32::try_from): the round trip is x
+            for a, b in ((c[3], c[4]), (c[4], c[3])):
+                if isinstance(b, tuple) and b[0] in ("sext", "zext") and isinstance(b[2], tuple) and b[2][0] == "trunc" and b[2][2] == a:
+                    sub[b] = a
     if not sub:
         return lambda t: t
     return lambda t: T.rebuild(t, lambda x: sub.get(x))
+
+
+def strength_reduction(conds):
+    """a compiler may replace `x * c` / `x / c` by a shift when it has tested that c is a power of two: under a path
+    condition `is_power_of_two(c)`, `shl(x, ilog2(c))` is rewritten back to `mul(x, c)` and `lshr(x, ilog2(c))` to
+    `udiv(x, c)`.  When the logarithm is taken of the *signed* view (it panics for c <= 0, which is C12's business),
+    c > 0 on this path and its sign- and zero-extensions coincide."""
+    pow2 = set()
+    for c in jitmodel._atoms(conds):
+        if isinstance(c, tuple) and c and c[0] == "call" and isinstance(c[1], str) and c[1].endswith("::is_power_of_two") and len(c[2]) == 1:
+            pow2.add(c[2][0])
+    if not pow2:
+        return lambda t: t
+    positive = set()
+
+    def rw(x):
+        if isinstance(x, tuple) and x and x[0] == "sh" and x[1] in ("shl", "lshr") and isinstance(x[4], tuple) and x[4][0] == "amt":
+            a = x[4][2]
+            if isinstance(a, tuple) and a and a[0] == "call" and isinstance(a[1], str) and a[1].endswith("::ilog2") and a[2][0] in pow2:
+                c, w = a[2][0], x[2]
+                if re.search(r"impl i\d+>::ilog2$", a[1]):
+                    positive.add(c)
+                cw = c if T.width(c) == w else T.zext(w, c)
+                return T.op("mul", w, x[3], cw) if x[1] == "shl" else T.op("udiv", w, x[3], cw)
+        return None
+
+    def f(t):
+        t2 = T.rebuild(t, rw)
+        if positive:
+            t2 = T.rebuild(t2, lambda x: T.zext(x[1], x[2]) if isinstance(x, tuple) and x and x[0] == "sext" and x[2] in positive else None)
+        return t2
+    f.positive = positive
+    return f
 
 
 def specialise(p, f):
@@ -136,7 +176,10 @@ def compare(ips, jps, legacy_load=False):
                 g = f
                 # assumption A-size: the displacement of a legacy load never reaches 2^31 on an in-bounds access
                 f = lambda t, g=g: T.rebuild(g(t), lambda x: ("v", "disp(imm)", 64) if x in (T.zext(64, ("v", "imm", 32)), T.sext(64, ("v", "imm", 32))) else None)
-            ip, jp = specialise(ip0, f), specialise(jp0, f)
+            sr = strength_reduction(list(jp0["conds"]))
+            f2 = (lambda t, f=f, sr=sr: sr(f(t)))
+            jp = specialise(jp0, f2)        # first: learns which constants are known positive on this path
+            ip = specialise(ip0, f2)
             if jp["bad"]:
                 diffs.append("; ".join(jp["bad"]))
             keys = set(ip["regs"]) | set(jp["regs"])
